@@ -32,14 +32,32 @@ fn err2(code: u16) -> ctap2::Error {
     }
 }
 
+/// Which of several answers the scripted handlers give (`script.variant`, default 0): the
+/// dispatcher must hand back WHATEVER the handler returned.
+pub static VARIANT: std::sync::atomic::AtomicU8 = std::sync::atomic::AtomicU8::new(0);
+fn variant() -> u8 {
+    VARIANT.load(std::sync::atomic::Ordering::Relaxed)
+}
+
 fn canned_cp() -> client_pin::Response {
     let mut r = client_pin::Response::default();
-    r.retries = Some(7);
+    match variant() {
+        0 => r.retries = Some(7),
+        1 => { r.retries = Some(0); r.power_cycle_state = Some(true); }
+        2 => {}
+        3 => { r.pin_token = Some(Bytes::from_slice(&[0xA0; 32]).unwrap()); }
+        _ => { r.uv_retries = Some(255); r.retries = Some(255); }
+    }
     r
 }
 fn canned_cm() -> credential_management::Response {
     let mut r = credential_management::Response::default();
-    r.total_rps = Some(3);
+    match variant() {
+        0 => r.total_rps = Some(3),
+        1 => {}
+        2 => { r.existing_resident_credentials_count = Some(0); r.max_possible_remaining_residential_credentials_count = Some(u32::MAX); }
+        _ => { r.total_credentials = Some(0); r.cred_protect = Some(credential_management::CredentialProtectionPolicy::Required); }
+    }
     r
 }
 fn canned_lb() -> large_blobs::Response {
@@ -72,7 +90,7 @@ fn canned_ga(tag: u8) -> get_assertion::Response {
 }
 fn canned_reg() -> ctap1::register::Response {
     ctap1::register::Response {
-        header_byte: 5,
+        header_byte: [5u8, 0, 4, 0xFF, 1, 0x80][(variant() % 6) as usize],
         public_key: Bytes::from_slice(&[4; 65]).unwrap(),
         key_handle: Bytes::from_slice(&[9; 10]).unwrap(),
         attestation_certificate: Bytes::from_slice(&[8; 20]).unwrap(),
@@ -80,7 +98,15 @@ fn canned_reg() -> ctap1::register::Response {
     }
 }
 fn canned_auth() -> ctap1::authenticate::Response {
-    ctap1::authenticate::Response { user_presence: 1, count: 77, signature: Bytes::from_slice(&[6; 12]).unwrap() }
+    let (user_presence, count, n) = match variant() {
+        0 => (1u8, 77u32, 12usize),
+        1 => (0, 0, 0),
+        2 => (2, 1, 72),
+        3 => (0x80, u32::MAX, 8),
+        4 => (0xFE, 256, 70),
+        _ => (0xFF, 65536, 1),
+    };
+    ctap1::authenticate::Response { user_presence, count, signature: Bytes::from_slice(&vec![6u8; n]).unwrap() }
 }
 
 macro_rules! impl_common {
@@ -258,6 +284,8 @@ pub fn dispatch(inp: &Value) -> R<Value> {
     let has_lb = get_bool(field(inp, "hasLb")?)?;
     let proto = field(inp, "proto")?.as_str().ok_or("proto")?;
     let variant = field(inp, "variant")?.as_str().ok_or("variant")?;
+    // which of the handlers' answers (the dispatcher must hand back whatever the handler returned)
+    VARIANT.store(script.get("answer").and_then(|x| x.as_u64()).unwrap_or(0) as u8, std::sync::atomic::Ordering::Relaxed);
     let mk = || Log { calls: vec![], fail };
     let (a, b) = if proto == "ctap1-constructed" {
         // an Authenticate request built directly: wire = control byte, then the key handle
